@@ -118,6 +118,10 @@ pub fn diff_case(_ctx: &Ctx, input: &Input, do_gc: bool) -> CaseResult {
     }
     let b = match exec::observe(&emitted, &script, host_seed, true) {
         Ok(s) => s,
+        Err(e) if e.starts_with("interpreter-panic") => {
+            out.label("skip:interpreter-panic");
+            return Ok(out);
+        }
         Err(e) => {
             return Err(Failure::new(
                 "output-not-loadable",
